@@ -17,6 +17,7 @@ CONSTANTS MaxNodes, MaxRels,
           Hist,             \* TRUE: C02 histories (mutators + physical steps)
           MaxHist,
           AskAt,            \* the query is asked once the history has at least this many steps
+          Sim,              \* TRUE for -simulate: one random query of the family per walk, script printed by the End step
           Dev               \* deviations enabled in the design-level laws (self-test)
 
 VARIABLES G, q, hist
@@ -202,7 +203,13 @@ FamOpt ==
           Q1(<<MA, OptMatch(<<Path1(a0, RP("r", <<>>, "out", <<>>), b0)>>, NoX), Match(<<Path1(b0, RP("s", <<>>, "out", <<>>), c0)>>, NoX),
                Ret(<<Item(Var("a"), ""), Item(Var("c"), "")>>)>>),
           Q1(<<Match(<<Path1(a0, RP("r", <<>>, "out", <<>>), b0)>>, NoX), OptMatch(<<Path1(b0, RP("s", <<>>, "out", <<>>), a0)>>, NoX),
-               Ret(<<Item(Var("r"), ""), Item(Var("s"), "")>>)>>)}
+               Ret(<<Item(Var("r"), ""), Item(Var("s"), "")>>)>>),
+          \* a label / inline property on an already bound variable inside OPTIONAL MATCH must not filter the row
+          Q1(<<Match(<<Path1(a0, RP("r", <<>>, "out", <<>>), b0)>>, NoX), OptMatch(<<Path1(b0, RP("s", <<>>, "both", <<>>), aA)>>, NoX),
+               Ret(<<Item(Var("a"), ""), Item(Var("b"), ""), Item(Var("s"), "")>>)>>),
+          Q1(<<MA, OptMatch(<<Path1(NP("a", <<>>, <<KV("p", VInt(1))>>), RP("s", <<>>, "out", <<>>), b0)>>, NoX),
+               Ret(<<Item(Var("a"), ""), Item(Var("b"), "")>>)>>),
+          Q1(<<MA, OptMatch(<<Path0(aA)>>, NoX), Ret(<<Item(Var("a"), "")>>)>>)}
 
 \* stage 5: ORDER BY / SKIP / LIMIT
 RetO(items, order, skip, limit) == [Ret(items) EXCEPT !.order = order, !.skip = skip, !.limit = limit]
@@ -300,12 +307,13 @@ MixFirst ==
         x \in {a0, aA, NP("a", <<>>, <<KV("p", VInt(1))>>)}, y \in {b0, bA}, ts \in {<<>>, <<"T">>}, d \in Dirs,
         w \in {NoX, Cmp("=", ap, bp), Cmp("<", ap, Lit(VInt(2))), IsNullX(bp), Cmp("<>", va, vb)}}
     \cup {Match(<<Path0(x), Path0(y)>>, w) : x \in {a0, aA}, y \in {b0, bA}, w \in {NoX, Cmp("=", ap, bp), Cmp("<>", va, vb), Cmp("<", ap, bp)}}
-    \cup {Match(<<Path2(a0, RP("", <<>>, d1, <<>>), c0, RP("", <<>>, d2, <<>>), b0)>>, w) : d1 \in Dirs, d2 \in Dirs, w \in {NoX, Cmp("<>", va, vb)}}
+    \cup {Match(<<Path2(a0, RP("", <<>>, d1, <<>>), NP("m", <<>>, <<>>), RP("", <<>>, d2, <<>>), b0)>>, w) : d1 \in Dirs, d2 \in Dirs, w \in {NoX, Cmp("<>", va, vb)}}
     \cup {Match(<<Path1(a0, VL("", ts, d, lh[1], lh[2]), b0)>>, NoX) : ts \in {<<>>, <<"T">>}, d \in Dirs, lh \in {<<1, 2>>, <<0, 1>>, <<2, 3>>}}
 MixSecond ==
     {<<>>,
      <<OptMatch(<<Path1(b0, RP("", <<>>, "out", <<>>), c0)>>, NoX)>>,
      <<OptMatch(<<Path1(b0, RP("", <<"T">>, "both", <<>>), NP("c", <<"A">>, <<>>))>>, Cmp("<>", Var("c"), va))>>,
+     <<OptMatch(<<Path1(b0, RP("", <<"T">>, "out", <<>>), a0)>>, NoX), With(<<Item(va, "a"), Item(vb, "b"), Item(vb, "c")>>, NoX)>>,
      <<With(<<Item(va, "a"), Item(vb, "b")>>, NotNullX(bp)), Match(<<Path0(c0)>>, Cmp("=", Prop("c", "p"), ap))>>,
      <<Unwind(LitList(<<VInt(1), VInt(2)>>), "c")>>,
      <<Match(<<Path1(b0, RP("", <<>>, "out", <<>>), c0)>>, NoX)>>}
@@ -325,7 +333,7 @@ FamMix == {Q1(<<m>> \o s2 \o <<r>>) : m \in MixFirst, s2 \in MixSecond, r \in Mi
 FamAll == FamScanL \cup FamScanW1 \cup FamScanW2 \cup FamScanI \cup FamHopD \cup FamHopP \cup FamAgg \cup FamAggHop \cup FamOpt
           \cup FamOrd \cup FamOrd2 \cup FamWith \cup FamWithHop \cup FamUnwind \cup FamUnion \cup FamVar \cup FamShort
 
-Fam(g) ==
+Fam ==
     CASE Family = "scanL" -> FamScanL
       [] Family = "scanW1" -> FamScanW1
       [] Family = "scanW2" -> FamScanW2
@@ -420,9 +428,13 @@ Linear(x) ==
        /\ \A i \in DOMAIN cs[2].items : ~IsAgg(cs[2].items[i].e)
 Ask ==
     /\ ~Asked /\ G.nodes # <<>> /\ Len(hist) >= AskAt
-    /\ \E x \in Fam(G) : q' = x /\ H(IF Hist THEN [op |-> "Query", q |-> x, lin |-> Linear(x)] ELSE [op |-> "Query", q |-> x])
+    /\ \E x \in (IF Sim THEN {RandomElement(Fam)} ELSE Fam) :
+          q' = x /\ H(IF Hist THEN [op |-> "Query", q |-> x, lin |-> Linear(x)] ELSE [op |-> "Query", q |-> x])
     /\ UNCHANGED G
-Next == \/ (~Hist /\ (DoAddNode \/ DoAddRel)) \/ Ask
+\* simulation only: TLC evaluates invariants on every candidate successor, so the script is printed one step later,
+\* from the successor of the state the walk really chose
+End == Sim /\ Asked /\ hist[Len(hist)].op = "Query" /\ H([op |-> "End"]) /\ UNCHANGED <<G, q>>
+Next == \/ (~Hist /\ (DoAddNode \/ DoAddRel)) \/ Ask \/ End
         \/ DoAddNodeH \/ DoAddRelH \/ DoDelNode \/ DoDelRel \/ DoSetNodeProp \/ DoRemoveNodeProp \/ DoSetRelProp
         \/ DoAddLabel \/ DoRemoveLabel \/ DoCompact \/ DoCreateIndex
 Spec == Init /\ [][Next]_vars
@@ -430,7 +442,7 @@ Spec == Init /\ [][Next]_vars
 View == <<G, q, IF Hist THEN [i \in DOMAIN hist |-> hist[i].op \in {"Compact", "CreateIndex", "DeleteNode", "DeleteRel"}] ELSE <<>>>>
 Bound == Len(hist) <= MaxHist
 EmitAsk == (q' # NoQ) => PrintT(<<"SCRIPT", ToJson(hist')>>)
-SimEmit == Asked => PrintT(<<"SCRIPT", ToJson(hist)>>)
+SimEmit == (hist # <<>> /\ hist[Len(hist)].op = "End") => PrintT(<<"SCRIPT", ToJson(SubSeq(hist, 1, Len(hist) - 1))>>)
 
 \* ------------------------------------------------------------------ design-level laws of the reference semantics
 NoLaw == TRUE     \* enumeration-only runs
